@@ -5,10 +5,14 @@ package c19
 import (
 	"context"
 	"fmt"
+	"io"
 	"net/http"
 	"net/http/httptest"
+	"strconv"
+	"strings"
 	"sync"
 	"testing"
+	"time"
 
 	"github.com/bbva/qed/api/apihttp"
 	"github.com/bbva/qed/balloon"
@@ -44,7 +48,7 @@ type H struct {
 	Batches []Batch `json:"batches"`
 }
 
-const rule = "an honest log (real Balloon behind the real api/apihttp handlers on httptest), the real client.HTTPClient, a never-started gossip agent with an in-memory snapshot store, a recording notifier and its cache, and the REAL auditor / monitor task factories (cmd hook); rapid draws logs of distinct events, batches = runs of 1-20 consecutive signed snapshots, and for each batch one alteration or none: gossiped snapshot (first/last) EventDigest / HistoryDigest / HyperDigest flipped or Version +-1 / another version; stored snapshot's HyperDigest / HistoryDigest at the version the task fetches; the log's answer altered by one operator (Exists flipped, ActualVersion changed, a history / hyper / incremental path entry dropped or flipped, Start changed). The harness computes the ground-truth verdict itself (honest proof verified against the PUBLISHED, possibly altered, snapshots). Oracle: no alert on untampered input; ground-truth verdict false => >=1 alert for that batch. A task that cannot fetch what it needs returns an error and is not required to alert. evaluations = tasks run. Non-trivial: a batch of size>=2 at version>=2, or a tampered case whose alteration the task reads. distinct = FNV-64 of (log, batch)."
+const rule = "an honest log (real Balloon behind the real api/apihttp handlers on httptest), the real client.HTTPClient, a never-started gossip agent wired, as `qed agent` wires it, to the REAL gossip.RestSnapshotStore and gossip.SimpleNotifier (one pair per case, as a long-running agent has) talking to a snapshot-store service and an alerts service on httptest (alerts are counted at the alerts endpoint, after a sentinel pushed through the notifier's queue has arrived), and the REAL auditor / monitor task factories (cmd hook); rapid draws logs of distinct events, batches = runs of 1-20 consecutive signed snapshots, and for each batch one alteration or none: gossiped snapshot (first/last) EventDigest / HistoryDigest / HyperDigest flipped or Version +-1 / another version; stored snapshot's HyperDigest / HistoryDigest at the version the task fetches; the log's answer altered by one operator (Exists flipped, ActualVersion changed, a history / hyper / incremental path entry dropped or flipped, Start changed). The harness computes the ground-truth verdict itself (honest proof verified against the PUBLISHED, possibly altered, snapshots). Oracle: no alert on untampered input; ground-truth verdict false => >=1 alert for that batch. A task that cannot fetch what it needs returns an error and is not required to alert. evaluations = tasks run. Non-trivial: a batch of size>=2 at version>=2, or a tampered case whose alteration the task reads. distinct = FNV-64 of (log, batch)."
 
 type memStore struct {
 	mu    sync.Mutex
@@ -80,6 +84,93 @@ func (m *memStore) GetSnapshot(v uint64) (*protocol.SignedSnapshot, error) {
 }
 func (m *memStore) DeleteRange(a, b uint64) error { return nil }
 func (m *memStore) Count() (uint64, error)        { return uint64(len(m.snaps)), nil }
+
+// services are the two HTTP endpoints an agent talks to besides the log — the
+// snapshot store (GET /snapshot?v=, POST /batch, backed by memStore) and the
+// alerts service (POST /alert) — plus the REAL clients the agents use for them
+// (gossip.RestSnapshotStore, gossip.SimpleNotifier), one pair per case as a
+// long-running agent has.
+type services struct {
+	store              *memStore
+	storeSrv, alertSrv *httptest.Server
+	mu                 sync.Mutex
+	alerts             []string
+	rest               *gossip.RestSnapshotStore
+	notifier           *gossip.SimpleNotifier
+	seq                int
+}
+
+func newServices() *services {
+	sv := &services{store: &memStore{snaps: map[uint64]*protocol.SignedSnapshot{}}}
+	mux := http.NewServeMux()
+	mux.HandleFunc("/snapshot", func(w http.ResponseWriter, r *http.Request) {
+		v, err := strconv.ParseUint(r.URL.Query().Get("v"), 10, 64)
+		if err != nil {
+			http.Error(w, "bad version", 400)
+			return
+		}
+		ss, err := sv.store.GetSnapshot(v)
+		if err != nil {
+			http.Error(w, err.Error(), 404)
+			return
+		}
+		out, _ := ss.Encode()
+		w.Write(out)
+	})
+	mux.HandleFunc("/batch", func(w http.ResponseWriter, r *http.Request) {
+		body, _ := io.ReadAll(r.Body)
+		var b protocol.BatchSnapshots
+		if err := b.Decode(body); err != nil {
+			http.Error(w, err.Error(), 400)
+			return
+		}
+		sv.store.PutBatch(&b)
+	})
+	sv.storeSrv = httptest.NewServer(mux)
+	sv.alertSrv = httptest.NewServer(http.HandlerFunc(func(w http.ResponseWriter, r *http.Request) {
+		body, _ := io.ReadAll(r.Body)
+		sv.mu.Lock()
+		sv.alerts = append(sv.alerts, string(body))
+		sv.mu.Unlock()
+	}))
+	// generous timeouts: a time-out under load would look like a missing alert
+	sv.rest = gossip.NewRestSnapshotStore([]string{sv.storeSrv.URL}, 20*time.Second, 20*time.Second)
+	sv.notifier = gossip.NewSimpleNotifier([]string{sv.alertSrv.URL + "/alert"}, 100, 20*time.Second, 20*time.Second, nil)
+	sv.notifier.Start()
+	return sv
+}
+
+func (sv *services) close() {
+	sv.notifier.Stop()
+	sv.storeSrv.Close()
+	sv.alertSrv.Close()
+}
+
+// settle returns the alerts the alerts service received since the last call.
+// The notifier posts its queue in order, so a sentinel pushed through the
+// same queue marks the point where everything before it has arrived.
+func (sv *services) settle() ([]string, error) {
+	sv.seq++
+	mark := fmt.Sprintf("harness-sentinel-%d", sv.seq)
+	sv.notifier.Alert(mark)
+	deadline := time.Now().Add(40 * time.Second)
+	for {
+		sv.mu.Lock()
+		for i, a := range sv.alerts {
+			if a == mark {
+				got := append([]string(nil), sv.alerts[:i]...)
+				sv.alerts = append([]string(nil), sv.alerts[i+1:]...)
+				sv.mu.Unlock()
+				return got, nil
+			}
+		}
+		sv.mu.Unlock()
+		if time.Now().After(deadline) {
+			return nil, &pbt.Unsettled{Why: "the alerts service did not receive the harness's sentinel within 40 s"}
+		}
+		time.Sleep(2 * time.Millisecond)
+	}
+}
 
 type recNotifier struct {
 	mu     sync.Mutex
@@ -173,18 +264,19 @@ func execAgent(h H, rec *pbt.Rec, role string) error {
 	if err != nil {
 		return &pbt.Unsettled{Why: err.Error()}
 	}
-	store := &memStore{snaps: map[uint64]*protocol.SignedSnapshot{}}
+	sv := newServices()
+	defer sv.close()
+	store := sv.store
 	signed := make([]*protocol.SignedSnapshot, n)
 	for v := 0; v < n; v++ {
 		s := protocol.Snapshot(*b.Snaps[v])
 		signed[v] = &protocol.SignedSnapshot{Snapshot: &s, Signature: []byte{byte(v), 1, 2}}
 	}
-	notifier := &recNotifier{}
 	conf := gossip.DefaultConfig()
 	conf.BindAddr = "127.0.0.1:7946"
 	conf.NodeName = "c19"
 	conf.Role = role
-	agent, err := gossip.NewDefaultAgent(conf, qed, store, nil, notifier, nil)
+	agent, err := gossip.NewDefaultAgent(conf, qed, sv.rest, nil, sv.notifier, nil)
 	if err != nil {
 		return &pbt.Unsettled{Why: err.Error()}
 	}
@@ -320,15 +412,21 @@ func execAgent(h H, rec *pbt.Rec, role string) error {
 		}
 		agent.Qed = qed
 		ctx := context.WithValue(context.WithValue(context.Background(), "agent", agent), "batch", batch)
-		before := notifier.n()
 		var taskErr error
 		if p, v := pbt.Panics(func() { taskErr = factory.New(ctx)() }); p {
 			return fmt.Errorf("batch %d (versions %d..%d, alteration %+v): the %s task panicked: %s", bi, first, last, t, role, v)
 		}
-		alerts := notifier.n() - before
+		got, err := sv.settle()
+		if err != nil {
+			return err
+		}
+		alerts := len(got)
 		tag := fmt.Sprintf("batch %d (versions %d..%d of a log at version %d, alteration %+v)", bi, first, last, cur, t)
 		if t.Where == "none" && alerts > 0 {
-			return fmt.Errorf("%s: the %s raised an alert against an honest log: %q", tag, role, notifier.alerts[len(notifier.alerts)-1])
+			return fmt.Errorf("%s: the %s raised an alert against an honest log: %q", tag, role, got[len(got)-1])
+		}
+		if taskErr != nil && alerts == 0 && (strings.Contains(taskErr.Error(), "timeout") || strings.Contains(taskErr.Error(), "deadline")) {
+			return &pbt.Unsettled{Why: "a request of the agent timed out: " + taskErr.Error()}
 		}
 		if fetchable && !verdict && alerts == 0 {
 			return fmt.Errorf("%s: verification of the published snapshots fails, but the %s raised no alert (task returned %v)", tag, role, taskErr)
@@ -422,7 +520,7 @@ type PH struct {
 	Batches [][2]int `json:"batches"` // delivered batches: [first, size], overlapping / repeated
 }
 
-const rulePub = "publisher: the real publisher task factory (cmd hook) on a never-started agent with its cache and an in-memory snapshot store; rapid draws delivery patterns of 1-12 batches over 1-30 signed snapshots: repeats of the same batch, overlapping windows, sub-batches, in any order. Oracle: the union of everything forwarded to the snapshot store equals the set of distinct signatures delivered, and no signature is forwarded twice. Non-trivial: some snapshot is delivered in >=2 batches. distinct = FNV-64 of the pattern."
+const rulePub = "publisher: the real publisher task factory (cmd hook) on a never-started agent with its cache and the REAL gossip.RestSnapshotStore posting to a snapshot-store service on httptest (forwarded batches are counted at that endpoint); rapid draws delivery patterns of 1-12 batches over 1-30 signed snapshots: repeats of the same batch, overlapping windows, sub-batches, in any order. Oracle: the union of everything forwarded to the snapshot store equals the set of distinct signatures delivered, and no signature is forwarded twice. Non-trivial: some snapshot is delivered in >=2 batches. distinct = FNV-64 of the pattern."
 
 func TestPublisher(t *testing.T) {
 	rig.Quiet()
@@ -439,12 +537,14 @@ func TestPublisher(t *testing.T) {
 		}
 		return h
 	}, func(h PH, rec *pbt.Rec) error {
-		store := &memStore{snaps: map[uint64]*protocol.SignedSnapshot{}}
+		sv := newServices()
+		defer sv.close()
+		store := sv.store
 		conf := gossip.DefaultConfig()
 		conf.BindAddr = "127.0.0.1:7946"
 		conf.NodeName = "c19p"
 		conf.Role = "publisher"
-		agent, err := gossip.NewDefaultAgent(conf, nil, store, nil, &recNotifier{}, nil)
+		agent, err := gossip.NewDefaultAgent(conf, nil, sv.rest, nil, sv.notifier, nil)
 		if err != nil {
 			return &pbt.Unsettled{Why: err.Error()}
 		}
